@@ -273,6 +273,18 @@ pub fn check_image(ag: &AG, rd: &RenderedY, grm: &YaccGrammar<u32>, out: &mut Ca
     if *grm.parse_param() != ag.parse_param {
         bad(out, "parse-param", format!("parse_param is {:?}, expected {:?}", grm.parse_param(), ag.parse_param));
     }
+    // every per-production accessor works for every production index the API hands out
+    // (including the start production and the Eco implicit rules' productions)
+    for p in grm.iter_pidxs() {
+        let _ = (grm.action(p), grm.action_span(p), grm.prod_span(p), grm.prod_precedence(p), grm.pp_prod(p), grm.prod_len(p));
+        out.count("accessor_comparisons", 5);
+    }
+    for r in grm.iter_rules() {
+        let _ = (grm.rule_name_span(r), grm.actiontype(r), grm.rule_to_prods(r).len(), grm.rule_name_str(r).len());
+    }
+    for t in grm.iter_tidxs() {
+        let _ = (grm.token_span(t), grm.token_epp(t), grm.token_precedence(t), grm.avoid_insert(t));
+    }
     // every index returned is in range
     for p in grm.iter_pidxs() {
         for s in grm.prod(p) {
